@@ -248,6 +248,19 @@ JiggCcgFails(d, ccg, toks, usesym) ==
   \cup (IF ~x.ok THEN {"shape"}
         ELSE JEq(d, x, toks, usesym, 0) \cup (IF JTiles(x) /\ x.b = 0 /\ x.e = Len(toks) THEN {} ELSE {"offsets"}))
 
+(* ---------------- which reader a file name selects (read_trees_guess_extension) ---------------- *)
+(* decided by the end of the name, the longer extension first; anything else is read as AUTO; names are code points *)
+EndsWith(s, suf) == Len(s) >= Len(suf) /\ SubSeq(s, Len(s) - Len(suf) + 1, Len(s)) = suf
+ExtJigg == <<46, 106, 105, 103, 103, 46, 120, 109, 108>>      \* .jigg.xml
+ExtXml == <<46, 120, 109, 108>>                               \* .xml
+ExtPtb == <<46, 112, 116, 98>>                                \* .ptb
+ReaderByExtension(name) == IF EndsWith(name, ExtJigg) THEN "jigg_xml" ELSE IF EndsWith(name, ExtXml) THEN "xml"
+                           ELSE IF EndsWith(name, ExtPtb) THEN "ptb" ELSE "auto"
+(* a file named by the convention of its format goes to the reader of that format, whatever precedes the extension *)
+ASSUME \A stem \in {<<>>, <<97>>, ExtXml, ExtPtb, ExtJigg, <<97, 46>>, <<46, 120, 109>>} :
+         /\ ReaderByExtension(stem \o ExtJigg) = "jigg_xml" /\ ReaderByExtension(stem \o ExtXml) = "xml"
+         /\ ReaderByExtension(stem \o ExtPtb) = "ptb" /\ ReaderByExtension(stem \o <<46, 97, 117, 116, 111>>) = "auto"
+
 (* ---------------- Prolog (LangPro) terms ---------------- *)
 (* lower: sequence of <<base, lower-cased base>> supplied with the event (TLC cannot change case) *)
 Lower(lower, b) == LET m == SelectSeq(lower, LAMBDA p : p[1] = b) IN IF Len(m) = 0 THEN b ELSE m[1][2]
